@@ -467,6 +467,14 @@ class Graph:
                 attrs[name] = sub
                 continue
             style = mn.get("style", "option")
+            if mn["k"] == "apply":
+                # `NAME = Option.auto(...) >> f`: a transformed auto member (rebuilt at every access)
+                inner = self.nodes[mn["e"]]
+                akw = {}
+                if inner.get("dflt") is not None:
+                    akw["default"] = dec(self.nodes[inner["dflt"]]["v"])
+                attrs[name] = Option.auto(**akw) >> dec(self.nodes[mn["f"]]["v"])
+                continue
             kw = {}
             if mn.get("dflt") is not None:
                 d = self.nodes[mn["dflt"]]
@@ -487,6 +495,8 @@ class Graph:
         n = self.nodes[nid]
         for name, m in n["members"]:
             real = obj._members[name]
+            if not isinstance(real, Evaluatable):
+                continue      # an _Auto member: a fresh expression is built at every access
             self.built[m] = self.reg(real, m)
             if self.nodes[m]["k"] == "namespace":
                 self.ns_register(m, real)
@@ -697,7 +707,7 @@ def run_program(prog):
 
 def run_op(g, op):
     name = op["op"]
-    if name in ("evaluate", "validate", "keys", "explain", "transform", "fingerprint"):
+    if name in ("evaluate", "validate", "keys", "explain", "transform", "fingerprint", "set_get"):
         return run_eval_op(g, op)
     try:
         if name == "register":
@@ -797,6 +807,9 @@ def run_eval_op(g, op):
                 r = ["ok", canon_keys(obj.explain(o))]
             elif name == "fingerprint":
                 r = ["ok", enc(json.loads(obj.fingerprint(o)))]
+            elif name == "set_get":
+                new = obj.set(o, dec(op["v"]))
+                r = ["ok", enc([new, obj.evaluate(new)])]
             else:
                 r = ["ok", enc(obj.transform(dec(op["x"]), o))]
         except RecursionError:
